@@ -15,21 +15,26 @@ def keyfn(case, res, m):
 def run(chk):
     chk.audit(PROPS)
     quick = chk.tier == 'quick'
-    n_mixed = 900 if quick else 24000
-    n_burst = 320 if quick else 8000
+    n_mixed = 800 if quick else 24000
+    n_burst = 300 if quick else 8000
 
-    def gen_mixed(rng):
+    def gen(rng):
+        # boundary stream `burst` (fills the batch buffer; lost-wake-up hunting) mixed into the general stream
+        if rng.random() < n_burst / (n_mixed + n_burst):
+            return scen_batch.gen_case(rng, chk.tier, 'burst')
         return scen_batch.gen_case(rng, chk.tier, rng.choice(['', '', '', 'single', 'lone', 'boundary', 'boundary']))
 
-    def gen_burst(rng):
-        return scen_batch.gen_case(rng, chk.tier, 'burst')
-
-    r1 = core.e1_flow(chk, 'scen_batch', 'batch', {'C09'}, gen_mixed, n_mixed, keyfn=keyfn)
-    r2 = core.e1_flow(chk, 'scen_batch', 'batch', {'C09'}, gen_burst, n_burst, keyfn=keyfn)
+    r1 = core.e1_flow(chk, 'scen_batch', 'batch', {'C09'}, gen, n_mixed + n_burst, keyfn=keyfn)
+    r2 = []
     # the same worker behind the public API (Server + ThreadServlet + concurrent callers): monitors only
-    n_srv = 150 if quick else 4000
+    n_srv = 120 if quick else 4000
     core.e1_flow(chk, 'scen_batch', None, {'C09'}, lambda rng: scen_batch.gen_server_case(rng, chk.tier), n_srv,
                  keyfn=lambda case, res, m: m['rule'] + ':server')
+    # real worker processes (ProcessServlet: pipe-backed q_in with the multiprocessing RLock): OS schedule, sampled
+    import scen_batch_proc
+    n_proc = 4 if quick else 80
+    core.e1_flow(chk, 'scen_batch_proc', None, {'C09'}, lambda rng: scen_batch_proc.gen_case(rng, chk.tier), n_proc,
+                 keyfn=lambda case, res, m: m['rule'] + ':process', sched=False, engine='E4-process')
     # what was actually exercised (model actions = event kinds; see scen_batch.model_lines)
     import collections
     evk = collections.Counter()
@@ -72,7 +77,8 @@ TRUSTED = [
     'timing theorem C09_deadline is about the integer clock of the model under maximal progress (a runnable thread runs before '
     'the clock advances); the run-time monitor checks the same under the virtual clock (time advances only when no thread is enabled); '
     'real-time scheduling delays of a runnable thread are outside the property',
-    'process workers (_SimpleProcessQueue: pipe + multiprocessing RLock) run the same Worker code; they are covered by the theorems only',
+    'process workers (_SimpleProcessQueue: pipe + multiprocessing RLock) run the same Worker code; they are covered by the theorems and '
+    'by a few sampled real-process runs (harness/scen_batch_proc.py: OS schedule not controlled, monitors only, no replay)',
 ]
 ASSUMPTIONS = [
     'the correspondence was checked on the schedules explored in this run only; the theorems quantify over all action lists of the model',
